@@ -11,6 +11,7 @@ import (
 
 	"verifharness/internal/corpus"
 	"verifharness/internal/gen"
+	refbidi "verifharness/internal/ref/bidi"
 )
 
 // alphabet of the synthetic paragraphs (line-break classes in comments)
@@ -436,7 +437,71 @@ func RealCase(r *gen.RNG) *Case {
 		}
 		c.Runs = append(c.Runs, rs)
 	}
-	randomConfig(r, c, totalPx(c.Runs))
 	c.LevelsFromDirection = true
+	upgradeLevels(c)
+	randomConfig(r, c, totalPx(c.Runs))
 	return c
+}
+
+// upgradeLevels replaces the direction-derived run levels of a real paragraph by
+// the reference UBA levels (x/text core, with x/text's own bracket preparation so
+// that they describe the runs the library produced) when every run is uniform.
+func upgradeLevels(c *Case) {
+	for _, r := range c.Text {
+		if p, _ := refbidi.LookupRune(r); p.Class() == refbidi.B {
+			return // several paragraphs: one wrap direction cannot describe them
+		}
+	}
+	paraRTL := c.ParaRTL
+	if !paraRTL {
+		// x/text: default LTR means first strong character (rules P2/P3)
+		iso := 0
+	scan:
+		for _, r := range c.Text {
+			p, _ := refbidi.LookupRune(r)
+			switch p.Class() {
+			case refbidi.LRI, refbidi.RLI, refbidi.FSI:
+				iso++
+			case refbidi.PDI:
+				if iso > 0 {
+					iso--
+				}
+			case refbidi.L:
+				if iso == 0 {
+					break scan
+				}
+			case refbidi.R, refbidi.AL:
+				if iso == 0 {
+					paraRTL = true
+					break scan
+				}
+			}
+		}
+	}
+	para := refbidi.ForceLTR
+	if paraRTL {
+		para = refbidi.ForceRTL
+	}
+	lv := refbidi.Levels(c.Text, para, false)
+	if len(lv) != len(c.Text) {
+		return
+	}
+	levels := make([]int, len(c.Runs))
+	for i, rs := range c.Runs {
+		l := int(lv[rs.Offset])
+		for k := rs.Offset; k < rs.Offset+rs.Count; k++ {
+			if int(lv[k]) != l {
+				return
+			}
+		}
+		if l%2 != rs.Level%2 {
+			return // direction disagrees with the reference: C07's business
+		}
+		levels[i] = l
+	}
+	for i := range c.Runs {
+		c.Runs[i].Level = levels[i]
+	}
+	c.ParaRTL = paraRTL
+	c.LevelsFromDirection = false
 }
